@@ -1,7 +1,10 @@
 #!/bin/bash
-# seedrun.sh <patch> <prop>... : apply a seeded change to /repo, run the quick checks, undo it
+# seedrun.sh <patch> <prop>... : apply a seeded change to /repo, run the quick checks, undo it.
+# The evidence files of the clean tree are put back afterwards (a run against a seeded change must never be committed).
 d=$1; shift
+bk=$(mktemp -d /verif/_work/evbk.XXXX); cp /verif/evidence/*.json $bk/ 2>/dev/null
 git -C /repo apply $d || exit 1
 for p in "$@"; do (cd /verif && bin/check $p 2>&1 | grep -E "^(OK|VIOLATION|KNOWN)" ); done
 git -C /repo checkout -- .
+cp $bk/*.json /verif/evidence/ 2>/dev/null; rm -rf $bk
 (cd /verif && python3 translator/gen.py >/dev/null 2>&1)
